@@ -150,9 +150,9 @@ theorem getQNames_all : ∀ (d : List (Str × Bool)) (st : Store) (m : Mgr),
 
 /-! ### one serialised document: bindings, caches, and the document's own prefix table -/
 
-theorem docGetQName_proj (st : Store) (m : Mgr) (d : Doc) (u : Str) (g : Bool) :
-    (docGetQName st m d u g).1 = (Mgr.computeQname st m u g).1 ∧
-      (docGetQName st m d u g).2.1 = (Mgr.computeQname st m u g).2.1 := by
+theorem docGetQName_proj (st : Store) (m : Mgr) (d : Doc) (u : Str) (g fb : Bool) :
+    (docGetQName st m d u g fb).1 = (Mgr.computeQname st m u g).1 ∧
+      (docGetQName st m d u g fb).2.1 = (Mgr.computeQname st m u g).2.1 := by
   unfold docGetQName
   simp only
   repeat' split
@@ -194,9 +194,9 @@ theorem Doc.addNamespace_ok {d d' : Doc} {p n q : Str} (h : d.addNamespace p n =
 def NamesOK (d : Doc) (acc : List (Str × Str × Str)) : Prop :=
   ∀ u dp l, (u, dp, l) ∈ acc → ∃ n, alookup d.table dp = some n ∧ n ++ l = u
 
-theorem docGetQName_names {st : Store} {m : Mgr} {d d' : Doc} {u : Str} {g : Bool}
+theorem docGetQName_names {st : Store} {m : Mgr} {d d' : Doc} {u : Str} {g fb : Bool}
     (hc : CacheOK m.cache) (hs : CacheOK m.scache) {acc : List (Str × Str × Str)} (ha : NamesOK d acc)
-    {res : Option (Str × Str)} (h : (docGetQName st m d u g).2.2 = .ok (d', res)) :
+    {res : Option (Str × Str)} (h : (docGetQName st m d u g fb).2.2 = .ok (d', res)) :
     NamesOK d' acc ∧ ∀ dp l, res = some (dp, l) → ∃ n, alookup d'.table dp = some n ∧ n ++ l = u := by
   have h0 := computeQname_all (st := st) u g hc hs
   unfold docGetQName at h
@@ -212,25 +212,25 @@ theorem docGetQName_names {st : Store} {m : Mgr} {d d' : Doc} {u : Str} {g : Boo
         · injection hparts with e; injection e with e1 e; injection e with e2 e3; subst e2 e3; simp
         · exact absurd hparts (by simp)
     split at h
-    · injection h with h; injection h with h1 h2; subst h1 h2
-      exact ⟨ha, by intro dp l e; exact absurd e (by simp)⟩
-    · split at h
-      · next d2 q hadd =>
-        injection h with h; injection h with h1 h2; subst h1 h2
-        obtain ⟨a1, a2⟩ := Doc.addNamespace_ok hadd
-        refine ⟨?_, ?_⟩
-        · intro u' dp' l' hm
-          obtain ⟨n', hn', e'⟩ := ha u' dp' l' hm
-          exact ⟨n', a2 _ _ hn', e'⟩
-        · intro dp l' e
-          injection e with e; injection e with e1 e2; subst e1 e2
+    · next d2 q hadd =>
+      injection h with h; injection h with h1 h2; subst h1
+      obtain ⟨a1, a2⟩ := Doc.addNamespace_ok hadd
+      refine ⟨?_, ?_⟩
+      · intro u' dp' l' hm
+        obtain ⟨n', hn', e'⟩ := ha u' dp' l' hm
+        exact ⟨n', a2 _ _ hn', e'⟩
+      · intro dp l' e
+        rw [← h2] at e
+        split at e
+        · exact absurd e (by simp)
+        · injection e with e; injection e with e1 e2; subst e1 e2
           exact ⟨n, a1, hnl⟩
-      · exact absurd h (by simp)
+    · exact absurd h (by simp)
 
-theorem serDoc_all : ∀ (qs : List (Str × Bool)) (st : Store) (m : Mgr) (d : Doc) (acc : List (Str × Str × Str)),
+theorem serDoc_all (fb : Bool) : ∀ (qs : List (Str × Bool)) (st : Store) (m : Mgr) (d : Doc) (acc : List (Str × Str × Str)),
     CacheOK m.cache → CacheOK m.scache → NamesOK d acc →
-    MRes st ((serDoc qs st m d acc).1, (serDoc qs st m d acc).2.1) ∧
-      ∀ d' res, (serDoc qs st m d acc).2.2 = .ok (d', res) → NamesOK d' res
+    MRes st ((serDoc fb qs st m d acc).1, (serDoc fb qs st m d acc).2.1) ∧
+      ∀ d' res, (serDoc fb qs st m d acc).2.2 = .ok (d', res) → NamesOK d' res
   | [], st, m, d, acc, hc, hs, ha => by
     refine ⟨⟨Reach.refl _, hc, hs⟩, ?_⟩
     intro d' res h
@@ -238,15 +238,15 @@ theorem serDoc_all : ∀ (qs : List (Str × Bool)) (st : Store) (m : Mgr) (d : D
     injection h with h; injection h with h1 h2; subst h1 h2; exact ha
   | (u, g) :: r, st, m, d, acc, hc, hs, ha => by
     have h0 := computeQname_all (st := st) u g hc hs
-    have hp := docGetQName_proj st m d u g
-    have hm : MRes st ((docGetQName st m d u g).1, (docGetQName st m d u g).2.1) := by
+    have hp := docGetQName_proj st m d u g fb
+    have hm : MRes st ((docGetQName st m d u g fb).1, (docGetQName st m d u g fb).2.1) := by
       rw [hp.1, hp.2]; exact ⟨h0.reach, h0.cache, h0.scache⟩
     simp only [serDoc]
     split
     · exact ⟨hm, by intro d' res h; exact absurd h (by simp)⟩
     · next d2 hq =>
       obtain ⟨n1, _⟩ := docGetQName_names hc hs ha hq
-      have ih := serDoc_all r (docGetQName st m d u g).1 (docGetQName st m d u g).2.1 d2 acc hm.cache hm.scache n1
+      have ih := serDoc_all fb r (docGetQName st m d u g fb).1 (docGetQName st m d u g fb).2.1 d2 acc hm.cache hm.scache n1
       exact ⟨⟨hm.reach.trans ih.1.reach, ih.1.cache, ih.1.scache⟩, ih.2⟩
     · next d2 dp l hq =>
       obtain ⟨n1, n2⟩ := docGetQName_names hc hs ha hq
@@ -257,7 +257,7 @@ theorem serDoc_all : ∀ (qs : List (Str × Bool)) (st : Store) (m : Mgr) (d : D
         · exact n1 u' dp' l' e
         · injection e with e1 e; injection e with e2 e3; subst e1 e2 e3
           exact n2 _ _ rfl
-      have ih := serDoc_all r (docGetQName st m d u g).1 (docGetQName st m d u g).2.1 d2 _ hm.cache hm.scache hacc
+      have ih := serDoc_all fb r (docGetQName st m d u g fb).1 (docGetQName st m d u g fb).2.1 d2 _ hm.cache hm.scache hacc
       exact ⟨⟨hm.reach.trans ih.1.reach, ih.1.cache, ih.1.scache⟩, ih.2⟩
 
 /-! ### the history invariant -/
@@ -306,8 +306,8 @@ theorem HInv.step {s : St} (h : HInv s) (op : Op) : HInv (s.step op).1 := by
   | parse i d => exact h.put i (bindAll_all true _ _ _ (h.mgr i).1 (h.mgr i).2)
   | parsexml i d => exact h.put i (bindAll_all false _ _ _ (h.mgr i).1 (h.mgr i).2)
   | ser i a b c => exact h.put i (getQNames_all _ _ _ (h.mgr i).1 (h.mgr i).2)
-  | serdoc i qs =>
-    have hd := (serDoc_all qs s.store (s.mgr i) Doc.empty [] (h.mgr i).1 (h.mgr i).2
+  | serdoc i fb qs =>
+    have hd := (serDoc_all fb qs s.store (s.mgr i) Doc.empty [] (h.mgr i).1 (h.mgr i).2
       (by intro u dp l hm; exact absurd hm (by simp))).1
     exact h.put i ⟨hd.reach, cacheOK_nil, hd.scache⟩
 
